@@ -100,8 +100,8 @@ def find_method_contract(cls, name):
             continue
         seen.add(c)
         for ct in CONTRACTS.values():
-            if ct.class_name == c and ct.method_name == name:
-                return ct
+            if ct.class_name == c and ct.method_name == name and not ct.ghost.get("dataflow_only"):
+                return ct          # (contracts that only state iteration independence say nothing a call site could use)
         if c in CLASSES:
             todo.extend(CLASSES[c]["bases"])
     return None
@@ -109,7 +109,7 @@ def find_method_contract(cls, name):
 
 def find_function_contract(name):
     for ct in CONTRACTS.values():
-        if ct.func == name:
+        if ct.func == name and not ct.ghost.get("dataflow_only"):
             return ct
     return None
 
